@@ -123,7 +123,7 @@ def check_C11(tier, seed):
         ji.append({k: inst[k] for k in ("id", "schema", "q")}); jo.append({"id": inst["id"], "ir": o["ir"]})
     verdicts = judge(res, "JudgeIR", ji, jo, wd, "ir")
     byid = {i["id"]: i for i in insts}
-    shapes = set(); nontrivial = 0
+    shapes = set(); nontrivial = 0; ndrift_lower = 0
     for x, o in zip(ji, jo):
         v = verdicts[x["id"]]; inst = byid[x["id"]]; ir = o["ir"]
         shape = json.dumps([[c["root"], c["parentFold"], [(it["kind"], it["from"], it["optional"], it["depth"], len(it["imported"]), len(it["post"])) for it in c["items"]],
@@ -133,6 +133,12 @@ def check_C11(tier, seed):
             if len(ir["vids"]) >= 2: nontrivial += 1
         if "C11.bad" in v:
             broken = [c for c in json.loads(tla_unquote(v["C11.bad"])) if c]
+            # the ninth clause (the whole compiled query = Lower.tla's image of the source) goes beyond the invariants the property lists:
+            # a disagreement there alone is reported as model drift, it is a violation only together with a listed clause
+            if all("Lower.tla" in c for c in broken):
+                ndrift_lower += 1
+                if ndrift_lower <= 5: res.drift.append(f"the compiled query differs from what Lower.tla derives from the source (no listed invariant broken): {inst['text'][:300]!r}")
+                continue
             res.violation(f"compiled query breaks: {'; '.join(broken)} - for query {inst['text']!r}", text="ir " + "; ".join(broken), tags=props.inst_tags(inst), replay=props.replay_case(inst, None, ir=ir, broken=broken))
         elif len(ir["comps"]) >= 2 and any(it["imported"] for c in ir["comps"] for it in c["items"]):
             res.sample({"query": inst["text"], "components": [{"root": c["root"], "vertices": [vx["vid"] for vx in c["vertices"]], "edges": [(it["kind"], it["eid"], it["from"], it["to"]) for it in c["items"]],
@@ -140,9 +146,10 @@ def check_C11(tier, seed):
     res.cov["evaluations"] = len(ji)
     res.cov["distinct_nontrivial"] = nontrivial
     res.cov["traces_validated_against_impl"] = 0
-    res.cov["rule"] = ("every query of the semantic universe (random + recursion / hint / fold-count families) that the real frontend accepts; TLC evaluates the eight clauses of JudgeIR.tla on the exported IR "
+    res.cov["rule"] = ("every query of the semantic universe (random + recursion / hint / fold-count families) that the real frontend accepts; TLC evaluates the clauses of JudgeIR.tla on the exported IR "
                        "(edge i -> vertex i+1; every vid/eid in exactly one component and numbered 1..n; folds precede their contents; edges go up; tags resolved before use; imported tags = exactly the outside tags used inside, as sets; "
-                       "variable uses typed compatibly; shape = pre-order numbering of the source AST). distinct non-trivial = distinct IR shapes (components, edge kinds, filter and import counts) with >= 2 vertices")
+                       "variable uses typed compatibly and variable types = the ones the source implies; shape = pre-order numbering of the source AST); a ninth clause compares the WHOLE exported IR with spec/Lower.tla's image of the source query "
+                       "(vertices with types / coercions / filters and their operands, edges with filled-in parameters / optional / recursion depth and implicit coercion, folds with count filters / outputs / imported tags, outputs, variables) - a difference there alone is model drift. distinct non-trivial = distinct IR shapes (components, edge kinds, filter and import counts) with >= 2 vertices")
     res.notes.update({"rejected_by_frontend": rejected, "distinct_shapes": len(shapes)})
     return res
 
